@@ -37,6 +37,18 @@ def _mutate(name):
         from chameleon.zpt import program as zp
         if hasattr(zp, 'parse_defines'):
             zp.parse_defines = tal.parse_defines
+    elif name == 'expression_error_token_flattened':
+        # pre-fix behaviour: the error names the expression after its line breaks were turned into blanks
+        import inspect
+        import textwrap
+        from chameleon import tales
+        src_fn = tales.PythonExpr.translate
+        code = textwrap.dedent(inspect.getsource(src_fn)).replace('raise ExpressionError(exc.msg, source)',
+                                                                  'raise ExpressionError(exc.msg, string)')
+        assert code != textwrap.dedent(inspect.getsource(src_fn))
+        ns = dict(src_fn.__globals__)
+        exec(code, ns)
+        tales.PythonExpr.translate = ns['translate']
     elif name == 'memo_expression_compiler':
         import functools
         from chameleon import tales
@@ -300,6 +312,10 @@ ERR_CLAUSES = [
     ('content-and-replace', '<div tal:content="1" tal:replace="2">a</div>'),
     ('end-without-start', '<div>a</b></div>'),
     ('i18n-duplicate', '<div i18n:attributes="title; title">a</div>'),
+    # expressions written over several lines
+    ('multiline-content', '<div tal:content="1 +\n  2 +">a</div>'),
+    ('multiline-interpolation', '<div>${1 +\n 2 +}</div>'),
+    ('multiline-define-part', '<div tal:define="x 1;\n y 2 +\n 3 +">a</div>'),
 ]
 
 
